@@ -34,6 +34,7 @@ fn main() {
                 "C15" => run::finish(ops::c15::cases(seed, tier), &driver, &out, seed, tier, ops::c15::RULE, serde_json::json!({})),
                 "C16" => run::finish(ops::c16::cases(seed, tier), &driver, &out, seed, tier, ops::c16::RULE, serde_json::json!({})),
                 "C12" => run::finish(ops::c12::cases(seed, tier), &driver, &out, seed, tier, ops::c12::RULE, serde_json::json!({})),
+                "C11" => run::finish(ops::c11::cases(seed, tier), &driver, &out, seed, tier, ops::c11::RULE, serde_json::json!({})),
                 "C07" => run::finish(ops::c07::cases(seed, tier), &driver, &out, seed, tier, ops::c07::RULE, serde_json::json!({})),
                 _ => Err(format!("unknown property {}", prop)),
             };
